@@ -17,6 +17,8 @@ package pogreb
 //@   ensures main-untouched: fData[fidOf[idx.main.File]] == old(fData[fidOf[idx.main.File]]) && fLen[fidOf[idx.main.File]] == old(fLen[fidOf[idx.main.File]])
 //@   ensures overflow-kept: err == nil ==> forall q int :: 0 <= q && q < int(old(idx.overflow.size)) ==> fData[fidOf[idx.overflow.File]][q] == old(fData[fidOf[idx.overflow.File]])[q]
 //@   ensures overflow-zero: err == nil ==> forall q int :: int(old(idx.overflow.size)) <= q && q < int(idx.overflow.size) ==> fData[fidOf[idx.overflow.File]][q] == 0
+//@   ensures [C01] overflow-in-log: err == nil && theDB() != nil && slotsInLog(old(fData[fidOf[idx.overflow.File]]), old(idx.overflow.size), theDB().datalog) ==> slotsInLog(fData[fidOf[idx.overflow.File]], idx.overflow.size, theDB().datalog)
+//@   ensures [C01] empty-in-log: err == nil && theDB() != nil ==> bucketInLog(b.bucket, theDB().datalog)
 //@   ensures err: err != nil ==> isIOErr(err)
 //@   modifies idx.freeBucketOffs, idx.overflow.size, fData[fidOf[idx.overflow.File]], fLen[fidOf[idx.overflow.File]], fDur[fidOf[idx.overflow.File]]
 
@@ -24,6 +26,10 @@ package pogreb
 // overflow pointers; the slot index is inside the bucket or one past its end
 //@ spec func swPrevOK(sw *slotWriter, idx *index) bool = forall q int :: off(sw.prevBuckets) <= q && q < off(sw.prevBuckets) + len(sw.prevBuckets) ==> bhOK(contents(sw.prevBuckets)[q], idx)
 //@ spec func swOK(sw *slotWriter, idx *index) bool = sw != nil && bhOK(sw.bucket, idx) && 0 <= sw.slotIdx && sw.slotIdx <= 31 && len(sw.prevBuckets) >= 0 && swPrevOK(sw, idx)
+
+// every non-empty slot held by the writer (its bucket and the buckets it left behind) points into the log
+//@ spec func swPrevInLog(sw *slotWriter, dl *datalog) bool = forall q int :: off(sw.prevBuckets) <= q && q < off(sw.prevBuckets) + len(sw.prevBuckets) ==> bucketInLog(contents(sw.prevBuckets)[q].bucket, dl)
+//@ spec func swInLog(sw *slotWriter, dl *datalog) bool = bucketInLog(sw.bucket.bucket, dl) && swPrevInLog(sw, dl)
 
 //@ func (sw *slotWriter) insert(sl slot, idx *index) (err error) [C01]
 //@   requires inv: idx != nil && idxFiles(idx) && idxFreeOK(idx) && swOK(sw, idx)
@@ -34,14 +40,24 @@ package pogreb
 //@   ensures main-untouched: fData[fidOf[idx.main.File]] == old(fData[fidOf[idx.main.File]]) && fLen[fidOf[idx.main.File]] == old(fLen[fidOf[idx.main.File]]) && idx.main.size == old(idx.main.size)
 //@   ensures overflow-kept: err == nil ==> idx.overflow.size >= old(idx.overflow.size) && forall q int :: 0 <= q && q < int(old(idx.overflow.size)) ==> fData[fidOf[idx.overflow.File]][q] == old(fData[fidOf[idx.overflow.File]])[q]
 //@   ensures overflow-zero: err == nil ==> forall q int :: int(old(idx.overflow.size)) <= q && q < int(idx.overflow.size) ==> fData[fidOf[idx.overflow.File]][q] == 0
+//@   ensures [C01] overflow-in-log: err == nil && theDB() != nil && slotsInLog(old(fData[fidOf[idx.overflow.File]]), old(idx.overflow.size), theDB().datalog) ==> slotsInLog(fData[fidOf[idx.overflow.File]], idx.overflow.size, theDB().datalog)
+// (stated for every handle at once, so that callers holding several writers need no aliasing case split)
+//@   ensures [C01] handles-in-log: err == nil && theDB() != nil && (sl.offset == 0 || slotInSeg(theDB().datalog, sl)) ==> forall h *bucketHandle :: old(bucketInLog(h.bucket, theDB().datalog)) ==> bucketInLog(h.bucket, theDB().datalog)
+//@   ensures [C01] writer-bucket-in-log: err == nil && theDB() != nil && (sl.offset == 0 || slotInSeg(theDB().datalog, sl)) && old(swInLog(sw, theDB().datalog)) ==> bucketInLog(sw.bucket.bucket, theDB().datalog)
+//@   ensures [C01] writer-prev-in-log: err == nil && theDB() != nil && (sl.offset == 0 || slotInSeg(theDB().datalog, sl)) && old(swInLog(sw, theDB().datalog)) ==> swPrevInLog(sw, theDB().datalog)
 //@   ensures err: err != nil ==> isIOErr(err)
+//@   at call append@1: cases append-fits: len(sw.prevBuckets) + 1 <= cap(sw.prevBuckets) || len(sw.prevBuckets) + 1 > cap(sw.prevBuckets)
 //@   modifies sw.bucket, sw.slotIdx, sw.prevBuckets, sw.bucket.bucket, sw.prevBuckets[*], idx.freeBucketOffs, idx.overflow.size, fData[fidOf[idx.overflow.File]], fLen[fidOf[idx.overflow.File]], fDur[fidOf[idx.overflow.File]]
+//@   flag cumulative
 
 // write: every bucket the writer touched goes to disk, the ones it left behind first; the overflow pointers of both
 // index files stay well formed and nothing outside the written buckets changes
 //@ func (sw *slotWriter) write() (err error) [C01]
 //@   requires inv: theDB() != nil && theDB().index != nil && idxFiles(theDB().index) && swOK(sw, theDB().index)
 //@   requires chains: chainsOK(fData[fidOf[theDB().index.main.File]], theDB().index.main.size, theDB().index.overflow.size) && chainsOK(fData[fidOf[theDB().index.overflow.File]], theDB().index.overflow.size, theDB().index.overflow.size)
+//@   requires [C01] in-log: swInLog(sw, theDB().datalog) && idxInLog(theDB())
+//@   ensures [C01] main-in-log: err == nil ==> slotsInLog(fData[fidOf[theDB().index.main.File]], theDB().index.main.size, theDB().datalog)
+//@   ensures [C01] overflow-in-log: err == nil ==> slotsInLog(fData[fidOf[theDB().index.overflow.File]], theDB().index.overflow.size, theDB().datalog)
 //@   ensures files: err == nil ==> idxFiles(theDB().index) && theDB().index.main.size == old(theDB().index.main.size) && theDB().index.overflow.size == old(theDB().index.overflow.size)
 //@   ensures main-chains: err == nil ==> chainsOK(fData[fidOf[theDB().index.main.File]], theDB().index.main.size, theDB().index.overflow.size)
 //@   ensures overflow-chains: err == nil ==> chainsOK(fData[fidOf[theDB().index.overflow.File]], theDB().index.overflow.size, theDB().index.overflow.size)
@@ -54,6 +70,7 @@ package pogreb
 //@     invariant sw == old(sw) && -1 <= i && i < len(sw.prevBuckets)
 //@     invariant idxFiles(theDB().index) && theDB().index.main.size == old(theDB().index.main.size) && theDB().index.overflow.size == old(theDB().index.overflow.size)
 //@     invariant chainsOK(fData[fidOf[theDB().index.main.File]], theDB().index.main.size, theDB().index.overflow.size)
+//@     invariant slotsInLog(fData[fidOf[theDB().index.main.File]], theDB().index.main.size, theDB().datalog) && slotsInLog(fData[fidOf[theDB().index.overflow.File]], theDB().index.overflow.size, theDB().datalog)
 //@     invariant chainsOK(fData[fidOf[theDB().index.overflow.File]], theDB().index.overflow.size, theDB().index.overflow.size)
 //@     decreases i + 1
 //@     modifies fData[fidOf[theDB().index.main.File]], fLen[fidOf[theDB().index.main.File]], fDur[fidOf[theDB().index.main.File]], fData[fidOf[theDB().index.overflow.File]], fLen[fidOf[theDB().index.overflow.File]], fDur[fidOf[theDB().index.overflow.File]]
@@ -82,6 +99,7 @@ package pogreb
 //@   ensures [C01] on-disk: err == nil ==> (forall p int :: 0 <= p && p < 31 ==> slotEncoded(fData[fidOf[sw.bucket.file.File]], int(sw.bucket.offset)+16*p, sw.bucket.slots[p])) && uint64(sw.bucket.next) == le64(fData[fidOf[sw.bucket.file.File]], int(sw.bucket.offset)+496)
 //@   ensures [C01] found-slot: err == nil && found ==> sw.slotIdx < 31 && keyOfSlotIs(theDB().datalog, sw.bucket.slots[sw.slotIdx], theKey())
 //@   ensures [C01] free-slot: err == nil && !found ==> sw.slotIdx == 31 || sw.bucket.slots[sw.slotIdx].offset == 0
+//@   ensures [C01] writer-in-log: err == nil ==> swInLog(sw, theDB().datalog)
 //@   ensures files-untouched: fData == old(fData) && fLen == old(fLen) && fDur == old(fDur)
 //@   at return: assert [C01] new-only-at-chain-end: err == nil && !found ==> b.next == 0
 //@   at call matchKey@1: cases which-file: b.file == idx.main || b.file == idx.overflow
@@ -92,11 +110,11 @@ package pogreb
 //@   loop 1:
 //@     invariant idx == old(idx) && newSlot == old(newSlot) && it != nil && fresh(it) && it.overflow == idx.overflow && sw != nil && fresh(sw) && len(sw.prevBuckets) == 0
 //@     invariant it.off == 0 || (it.f == idx.main && bucketAt(it.off, idx.main.size)) || (it.f == idx.overflow && bucketAt(it.off, idx.overflow.size))
-//@     auxinvariant free == nil || (free != sw && allocated(free) && allocated(free.bucket) && fresh(free) && fresh(free.bucket) && swOK(free, idx) && len(free.prevBuckets) == 0 && free.slotIdx < 31 && free.bucket.slots[free.slotIdx].offset == 0 && (forall p int :: 0 <= p && p < 31 ==> slotEncoded(fData[fidOf[free.bucket.file.File]], int(free.bucket.offset)+16*p, free.bucket.slots[p])) && uint64(free.bucket.next) == le64(fData[fidOf[free.bucket.file.File]], int(free.bucket.offset)+496))
+//@     auxinvariant free == nil || (free != sw && allocated(free) && allocated(free.bucket) && fresh(free) && fresh(free.bucket) && swOK(free, idx) && len(free.prevBuckets) == 0 && free.slotIdx < 31 && free.bucket.slots[free.slotIdx].offset == 0 && bucketInLog(free.bucket.bucket, theDB().datalog) && (forall p int :: 0 <= p && p < 31 ==> slotEncoded(fData[fidOf[free.bucket.file.File]], int(free.bucket.offset)+16*p, free.bucket.slots[p])) && uint64(free.bucket.next) == le64(fData[fidOf[free.bucket.file.File]], int(free.bucket.offset)+496))
 //@     modifies it.off, it.f, sw.bucket
 //@   loop 2:
 //@     invariant 0 <= i && i <= 31 && idx == old(idx) && newSlot == old(newSlot)
-//@     auxinvariant free == nil || (free != sw && allocated(free) && allocated(free.bucket) && fresh(free) && fresh(free.bucket) && swOK(free, idx) && len(free.prevBuckets) == 0 && free.slotIdx < 31 && free.bucket.slots[free.slotIdx].offset == 0 && (forall p int :: 0 <= p && p < 31 ==> slotEncoded(fData[fidOf[free.bucket.file.File]], int(free.bucket.offset)+16*p, free.bucket.slots[p])) && uint64(free.bucket.next) == le64(fData[fidOf[free.bucket.file.File]], int(free.bucket.offset)+496))
+//@     auxinvariant free == nil || (free != sw && allocated(free) && allocated(free.bucket) && fresh(free) && fresh(free.bucket) && swOK(free, idx) && len(free.prevBuckets) == 0 && free.slotIdx < 31 && free.bucket.slots[free.slotIdx].offset == 0 && bucketInLog(free.bucket.bucket, theDB().datalog) && (forall p int :: 0 <= p && p < 31 ==> slotEncoded(fData[fidOf[free.bucket.file.File]], int(free.bucket.offset)+16*p, free.bucket.slots[p])) && uint64(free.bucket.next) == le64(fData[fidOf[free.bucket.file.File]], int(free.bucket.offset)+496))
 //@     modifies nothing
 
 // the same for a slot writer held as a local struct value (index.split)
@@ -109,6 +127,8 @@ package pogreb
 //@   at call append@1: cases append-fits: len(idx.freeBucketOffs) + len(offsets) <= cap(idx.freeBucketOffs) || len(idx.freeBucketOffs) + len(offsets) > cap(idx.freeBucketOffs)
 //@   modifies idx.freeBucketOffs, idx.freeBucketOffs[*]
 
+//@ spec func swValInLog(sw slotWriter, dl *datalog) bool = bucketInLog(sw.bucket.bucket, dl) && forall q int :: off(sw.prevBuckets) <= q && q < off(sw.prevBuckets) + len(sw.prevBuckets) ==> bucketInLog(contents(sw.prevBuckets)[q].bucket, dl)
+
 // split: one bucket chain is redistributed over its old main bucket and a new last main bucket; the buckets are
 // rebuilt in memory (inserting may chain fresh or recycled overflow buckets), the old overflow buckets go to the free
 // list, both chains are written, and the addressing state moves on: IDX-WF holds again afterwards
@@ -118,26 +138,47 @@ package pogreb
 //@   ensures inv-lh: err == nil ==> idxLH(idx)
 //@   ensures inv-main-chains: err == nil ==> chainsOK(fData[fidOf[idx.main.File]], idx.main.size, idx.overflow.size)
 //@   ensures inv-overflow-chains: err == nil ==> chainsOK(fData[fidOf[idx.overflow.File]], idx.overflow.size, idx.overflow.size)
+//@   requires [C01] in-log: idxInLog(theDB())
+//@   ensures [C01] inv-main-in-log: err == nil ==> slotsInLog(fData[fidOf[idx.main.File]], idx.main.size, theDB().datalog)
+//@   ensures [C01] inv-overflow-in-log: err == nil ==> slotsInLog(fData[fidOf[idx.overflow.File]], idx.overflow.size, theDB().datalog)
 //@   ensures wrappers: idx.main == old(idx.main) && idx.overflow == old(idx.overflow) && idx.main.File == old(idx.main.File) && idx.overflow.File == old(idx.overflow.File) && idx.opts == old(idx.opts)
 //@   ensures [C01] one-more-bucket: err == nil ==> idx.numBuckets == old(idx.numBuckets) + 1 && idx.numKeys == old(idx.numKeys)
 //@   ensures err: err != nil ==> isIOErr(err) || err == io.EOF
+//@   at call extend@1: hint aligned: idx.main.size & 511 == 0
+//@   at call insert@1: hint slot-in-log: slotInSeg(theDB().datalog, sl)
+//@   at call insert@2: hint slot-in-log: slotInSeg(theDB().datalog, sl)
 //@   modifies idx.freeBucketOffs, idx.freeBucketOffs[*], idx.level, idx.numBuckets, idx.splitBucketIdx, idx.main.size, idx.overflow.size, fData[fidOf[idx.main.File]], fLen[fidOf[idx.main.File]], fDur[fidOf[idx.main.File]], fData[fidOf[idx.overflow.File]], fLen[fidOf[idx.overflow.File]], fDur[fidOf[idx.overflow.File]]
 //@   loop 1:
 //@     invariant idx == old(idx) && it != nil && fresh(it) && it.overflow == idx.overflow && updatedBucketIdx == old(idx.splitBucketIdx) && updatedBucketIdx < old(idx.numBuckets)
 //@     invariant it.off == 0 || (it.f == idx.main && bucketAt(it.off, idx.main.size)) || (it.f == idx.overflow && bucketAt(it.off, idx.overflow.size))
 //@     invariant idxFiles(idx) && idxFreeOK(idx) && idxLH0(idx) && idx.main.size == old(idx.main.size) + 512 && idx.overflow.size >= old(idx.overflow.size)
 //@     invariant idx.main == old(idx.main) && idx.overflow == old(idx.overflow) && idx.main.File == old(idx.main.File) && idx.overflow.File == old(idx.overflow.File) && idx.opts == old(idx.opts) && idx.numBuckets == old(idx.numBuckets) && idx.numKeys == old(idx.numKeys)
-//@     invariant chainsOK(fData[fidOf[idx.main.File]], idx.main.size, idx.overflow.size) && chainsOK(fData[fidOf[idx.overflow.File]], idx.overflow.size, idx.overflow.size)
+//@     invariant chainsOK(fData[fidOf[idx.main.File]], idx.main.size, idx.overflow.size)
+//@     invariant chainsOK(fData[fidOf[idx.overflow.File]], idx.overflow.size, idx.overflow.size)
 //@     invariant swValOK(updatedBucket, idx) && swValOK(sw, idx) && fresh(updatedBucket.bucket) && fresh(sw.bucket) && ((arr(updatedBucket.prevBuckets) == 0 && cap(updatedBucket.prevBuckets) == 0) || fresh(updatedBucket.prevBuckets)) && ((arr(sw.prevBuckets) == 0 && cap(sw.prevBuckets) == 0) || fresh(sw.prevBuckets))
 //@     invariant len(overflowBuckets) >= 0 && ((arr(overflowBuckets) == 0 && cap(overflowBuckets) == 0) || fresh(overflowBuckets)) && forall q int :: off(overflowBuckets) <= q && q < off(overflowBuckets) + len(overflowBuckets) ==> bucketAt(contents(overflowBuckets)[q], idx.overflow.size)
+//@     invariant slotsInLog(fData[fidOf[idx.main.File]], idx.main.size, theDB().datalog)
+//@     invariant slotsInLog(fData[fidOf[idx.overflow.File]], idx.overflow.size, theDB().datalog)
+//@     invariant bucketInLog(updatedBucket.bucket.bucket, theDB().datalog)
+//@     invariant bucketInLog(sw.bucket.bucket, theDB().datalog)
+//@     invariant forall q int :: off(updatedBucket.prevBuckets) <= q && q < off(updatedBucket.prevBuckets) + len(updatedBucket.prevBuckets) ==> bucketInLog(contents(updatedBucket.prevBuckets)[q].bucket, theDB().datalog)
+//@     invariant forall q int :: off(sw.prevBuckets) <= q && q < off(sw.prevBuckets) + len(sw.prevBuckets) ==> bucketInLog(contents(sw.prevBuckets)[q].bucket, theDB().datalog)
 //@   loop 2:
 //@     invariant 0 <= j && j <= 31 && idx == old(idx) && it != nil && fresh(it) && updatedBucketIdx == old(idx.splitBucketIdx)
 //@     invariant idxFiles(idx) && idxFreeOK(idx) && idxLH0(idx) && idx.main.size == old(idx.main.size) + 512 && idx.overflow.size >= old(idx.overflow.size)
 //@     invariant idx.main == old(idx.main) && idx.overflow == old(idx.overflow) && idx.main.File == old(idx.main.File) && idx.overflow.File == old(idx.overflow.File) && idx.opts == old(idx.opts) && idx.numBuckets == old(idx.numBuckets) && idx.numKeys == old(idx.numKeys)
-//@     invariant chainsOK(fData[fidOf[idx.main.File]], idx.main.size, idx.overflow.size) && chainsOK(fData[fidOf[idx.overflow.File]], idx.overflow.size, idx.overflow.size)
+//@     invariant chainsOK(fData[fidOf[idx.main.File]], idx.main.size, idx.overflow.size)
+//@     invariant chainsOK(fData[fidOf[idx.overflow.File]], idx.overflow.size, idx.overflow.size)
 //@     invariant swValOK(updatedBucket, idx) && swValOK(sw, idx) && fresh(updatedBucket.bucket) && fresh(sw.bucket) && ((arr(updatedBucket.prevBuckets) == 0 && cap(updatedBucket.prevBuckets) == 0) || fresh(updatedBucket.prevBuckets)) && ((arr(sw.prevBuckets) == 0 && cap(sw.prevBuckets) == 0) || fresh(sw.prevBuckets))
 //@     invariant b.next == it.off && nextOK(b.next, idx.overflow.size)
 //@     invariant len(overflowBuckets) >= 0 && ((arr(overflowBuckets) == 0 && cap(overflowBuckets) == 0) || fresh(overflowBuckets)) && forall q int :: off(overflowBuckets) <= q && q < off(overflowBuckets) + len(overflowBuckets) ==> bucketAt(contents(overflowBuckets)[q], idx.overflow.size)
+//@     invariant slotsInLog(fData[fidOf[idx.main.File]], idx.main.size, theDB().datalog)
+//@     invariant slotsInLog(fData[fidOf[idx.overflow.File]], idx.overflow.size, theDB().datalog)
+//@     invariant bucketInLog(updatedBucket.bucket.bucket, theDB().datalog)
+//@     invariant bucketInLog(sw.bucket.bucket, theDB().datalog)
+//@     invariant forall q int :: off(updatedBucket.prevBuckets) <= q && q < off(updatedBucket.prevBuckets) + len(updatedBucket.prevBuckets) ==> bucketInLog(contents(updatedBucket.prevBuckets)[q].bucket, theDB().datalog)
+//@     invariant forall q int :: off(sw.prevBuckets) <= q && q < off(sw.prevBuckets) + len(sw.prevBuckets) ==> bucketInLog(contents(sw.prevBuckets)[q].bucket, theDB().datalog)
+//@     invariant bucketInLog(b.bucket, theDB().datalog)
 
 // the addressing state in the middle of a split: split pointer and level already moved on, bucket count not yet
 //@ spec func idxLH0(idx *index) bool = idx.level < 32 && idx.splitBucketIdx < uint32(1) << idx.level && uint64(idx.numBuckets) + 1 == (uint64(1) << idx.level) + uint64(idx.splitBucketIdx)
@@ -149,11 +190,14 @@ package pogreb
 //@   requires inv: theDB() != nil && idx == theDB().index && dbFull(theDB()) && idxInLog(theDB()) && idxFreeOK(idx)
 // (fewer than 2^31 buckets: the level can still grow)
 //@   requires room: idx.level < 31
+//@   requires [C01] slot: slotInSeg(theDB().datalog, newSlot)
 //@   ensures inv-log: err == nil ==> dbInv(theDB())
 //@   ensures inv-idx: err == nil ==> idxFiles(idx) && idxLH(idx) && idxFreeOK(idx)
 //@   ensures inv-main-chains: err == nil ==> chainsOK(fData[fidOf[idx.main.File]], idx.main.size, idx.overflow.size)
 //@   ensures inv-overflow-chains: err == nil ==> chainsOK(fData[fidOf[idx.overflow.File]], idx.overflow.size, idx.overflow.size)
 //@   ensures inv-disjoint: err == nil ==> idxLogDisjoint(theDB())
+//@   ensures [C01] inv-main-in-log: err == nil ==> slotsInLog(fData[fidOf[idx.main.File]], idx.main.size, theDB().datalog)
+//@   ensures [C01] inv-overflow-in-log: err == nil ==> slotsInLog(fData[fidOf[idx.overflow.File]], idx.overflow.size, theDB().datalog)
 //@   ensures [C03] log: segmentsUntouched(theDB().datalog)
 //@   ensures err: err != nil ==> isIOErr(err) || err == io.EOF || err == errFull || !isIOErr(err)
 //@   at call write@1: hint overflow-chains-after-insert: chainsOK(fData[fidOf[idx.overflow.File]], idx.overflow.size, idx.overflow.size)
